@@ -92,6 +92,39 @@ def g_rachford_rice():
     return run
 
 
+def g_package():
+    """the bubble- and dew-point solvers a VLE object builds belong to the property package OF THE STREAM (its
+    activity, fugacity and Poynting model classes), whatever package is installed as the process-wide default -
+    the precondition of "with the ideal package the split agrees with Raoult's law" """
+    def run(E):
+        th = _fx['th']
+        which = E.pick(['ideal-on-stream/default-global', 'default-on-stream/ideal-global'], 'packages')
+        ideal = th.ideal()
+        mine, glob = (ideal, th) if which.startswith('ideal') else (th, ideal)
+        old = tmo.settings.get_thermo()
+        tmo.settings.set_thermo(glob)
+        try:
+            ms, tot, fsig = c03.mk_feed(E, [2], ('both',), ((0, 0),))
+            ms._thermo = mine
+            for v in ms._streams.values():
+                v._thermo = mine
+            V = c03.make_vle(E, ms)
+            try:
+                V(**c03.spec_values(E, 'TP'))
+            except (tmo.exceptions.NoEquilibrium, ZeroDivisionError, FloatingPointError):
+                raise core.PathAbort('refused')
+            bp, dp = V._real_points
+            ok = []
+            for o in (bp, dp):
+                ok += [type(o.gamma) is mine.Gamma, type(o.phi) is mine.Phi, type(o.pcf) is mine.PCF]
+            E.prove('bubble-and-dew-point-solvers-use-the-streams-package', all(ok), sig=which,
+                    info=dict(bubble=[type(bp.gamma).__name__, type(bp.phi).__name__, type(bp.pcf).__name__],
+                              dew=[type(dp.gamma).__name__, type(dp.phi).__name__, type(dp.pcf).__name__]))
+        finally:
+            tmo.settings.set_thermo(old)
+    return run
+
+
 def g_phase_boundary():
     """(iv): the bubble/dew comparison of set_thermal_condition"""
     def run(E):
@@ -152,6 +185,7 @@ BUDGET_S = {'quick': 400, 'thorough': 3000}
 def groups(tier):
     q = tier == 'quick'
     g = {
+        'solver-objects-of-the-streams-package': (g_package(), dict(max_paths=100000)),
         'spec-bookkeeping': (g_bookkeeping(['TP', 'TV', 'PV'], [1, 2] if not q else [1], ((0, 0), (1, 1)), ('both',)),
                              dict(max_paths=1000000, task_budget_s=120)),
         'spec-bookkeeping-TP-multicomponent': (g_bookkeeping(['TP'], [2], ((0, 0), (1, 1)), ('both',)), dict(max_paths=1000000, task_budget_s=120)),
